@@ -243,6 +243,25 @@ func arenas() []*arena {
 		w.Flush()
 		return [][]byte{headOf(sc.Output())}
 	}})
+	// through a forward proxy the request target is the absolute URI, CONNECT uses the
+	// authority: both are built from the Host the application set
+	for _, method := range []string{"GET", "CONNECT"} {
+		method := method
+		as = append(as, &arena{name: "Request(client codec, via proxy, " + method + ")", typ: reflect.TypeOf(&protocol.Request{}), run: func(ops func(reflect.Value)) [][]byte {
+			var rq protocol.Request
+			rq.SetRequestURI("/p?q=1")
+			rq.SetHost("origin.example")
+			rq.Header.SetMethod(method)
+			ops(reflect.ValueOf(&rq))
+			sc := sconn.New(nil, sconn.EOF)
+			w := standard.VerifNewConn(sc, 4096)
+			if err := req.ProxyWrite(&rq, w); err != nil {
+				return nil
+			}
+			w.Flush()
+			return [][]byte{headOf(sc.Output())}
+		}})
+	}
 	as = append(as, &arena{name: "Request.Header(client codec)", typ: reflect.TypeOf(&protocol.RequestHeader{}), run: func(ops func(reflect.Value)) [][]byte {
 		var rq protocol.Request
 		rq.SetRequestURI("http://h/p")
@@ -347,6 +366,28 @@ func arenas() []*arena {
 			return lateHead(sc.Output())
 		}})
 	}
+	// late trailer calls: the trailer section goes to the connection after the last chunk,
+	// then the body stream is closed (application code) and only then the flush follows
+	for _, pad := range []int{10, 5000} {
+		pad := pad
+		as = append(as, &arena{name: fmt.Sprintf("ResponseTrailer(late, body stream Close, trailer>%d)", pad), typ: reflect.TypeOf(&protocol.Trailer{}), run: func(ops func(reflect.Value)) [][]byte {
+			var rs protocol.Response
+			rs.Header.Trailer().Set("X-Pad", strings.Repeat("t", pad))
+			rs.SetBodyStream(&closingReader{Reader: strings.NewReader("streamed"), onClose: func() { ops(reflect.ValueOf(rs.Header.Trailer())) }}, -1)
+			sc := sconn.New(nil, sconn.EOF)
+			w := standard.VerifNewConn(sc, 4096)
+			if err := resp.Write(&rs, w); err != nil {
+				return nil
+			}
+			w.Flush()
+			out := sc.Output()
+			i := bytes.Index(out, []byte("\r\n0\r\n"))
+			if i < 0 {
+				return [][]byte{headOf(out), []byte("X-Inj-No-Last-Chunk: 1\r\n\r\n")}
+			}
+			return [][]byte{headOf(out), out[i+5:]}
+		}})
+	}
 	for _, pad := range []int{10, 5000} {
 		pad := pad
 		as = append(as, &arena{name: fmt.Sprintf("Request.Header(late, body stream Read, head>%d)", pad), typ: reflect.TypeOf(&protocol.RequestHeader{}), run: func(ops func(reflect.Value)) [][]byte {
@@ -381,6 +422,13 @@ func arenas() []*arena {
 	}
 	return as
 }
+
+type closingReader struct {
+	io.Reader
+	onClose func()
+}
+
+func (c *closingReader) Close() error { c.onClose(); return nil }
 
 type readerFunc func(p []byte) (int, error)
 
